@@ -105,6 +105,18 @@ fn main() {
                     continue;
                 }
                 let out = match serde_json::from_str::<Value>(&line) {
+                    // "own_thread": the case runs on a thread of its own (C06: the output must not depend on the thread)
+                    Ok(case) if case.get("own_thread").and_then(Value::as_bool) == Some(true) => {
+                        std::thread::Builder::new()
+                            .stack_size(stack * 1024 * 1024)
+                            .spawn(move || match guarded(|| h(&case)) {
+                                Ok(v) => v,
+                                Err(e) => panic_json(e),
+                            })
+                            .unwrap()
+                            .join()
+                            .unwrap_or_else(|_| json!({"outcome": "panic", "msg": "thread died"}))
+                    }
                     Ok(case) => match guarded(|| h(&case)) {
                         Ok(v) => v,
                         Err(e) => panic_json(e),
